@@ -67,8 +67,10 @@ package dns
 //@   ensures alpn: fresh(asptr(ret0, SVCBAlpn).Alpn)
 //@ func (*SVCBECHConfig).copy [C16]
 //@   ensures ech: fresh(asptr(ret0, SVCBECHConfig).ECH)
-//@ func (*SVCBLocal).copy [C16]
+//@ func (*SVCBLocal).copy [C16 C20]
 //@   ensures data: fresh(asptr(ret0, SVCBLocal).Data)
+// the copy is the same parameter: same key, same number of octets (a record and its copy are duplicates)
+//@   ensures samekey: isptrtype(ret0, SVCBLocal) && asptr(ret0, SVCBLocal).KeyCode == s.KeyCode && len(asptr(ret0, SVCBLocal).Data) == len(s.Data) [C16 C20]
 //@ func (*SVCBIPv4Hint).copy [C16]
 //@   ensures hint: fresh(asptr(ret0, SVCBIPv4Hint).Hint)
 //@   ensures each: forall k in 0..len(asptr(ret0, SVCBIPv4Hint).Hint) :: fresh(asptr(ret0, SVCBIPv4Hint).Hint[k])
